@@ -124,9 +124,16 @@ func NewTicker(d Duration) *Ticker {
 		}()
 		return tk
 	}
-	fires := s.TimerFires
-	s.Go("ticker", true, func() {
-		for i := 0; i < fires && !tk.stopped; i++ {
+	tt := s.Go("ticker", true, func() {
+		for !tk.stopped {
+			// s.TimerFires is the execution-wide budget of ticks still to come (the harness may
+			// replenish it). At most one tick is pending (further ticks would be dropped anyway):
+			// the next one comes only after the previous was consumed, so a burst cannot burn the budget.
+			s.Block("ticker.wait", func() bool { return tk.stopped || (s.TimerFires > 0 && vchan.Len(tk.C) == 0) })
+			if tk.stopped {
+				return
+			}
+			s.TimerFires--
 			s.Point("ticker.fire")
 			if tk.stopped {
 				return
@@ -134,6 +141,7 @@ func NewTicker(d Duration) *Ticker {
 			vchan.Select(vchan.OnSend(tk.C, Now()), vchan.Default())
 		}
 	})
+	tt.LowPrio = true
 	s.Point("time.NewTicker")
 	return tk
 }
